@@ -37,7 +37,7 @@ def replay(rec: Dict[str, Any]) -> List[Tuple[str, Dict[str, Any], str]]:
         doc = untag(rec["doc"])
         disc = ""
         got: Any = None
-        for compiled in (False, True):
+        for compiled in (False, True, "foreign"):
             try:
                 if not compiled:
                     # another environment with other decoding options selects with the same expression texts first:
@@ -46,7 +46,16 @@ def replay(rec: Dict[str, Any]) -> List[Tuple[str, Dict[str, Any], str]]:
                         list(jsonpath.JSONPathEnvironment(unicode_escape=False).query(mq, untag(rec["doc"])).select(*rels, projection=style))
                     except BaseException:  # noqa: BLE001
                         pass
-                args = [jsonpath.compile(r) for r in rels] if compiled else rels
+                if compiled == "foreign":
+                    # relative queries compiled by another environment (its own root spelling): a compiled query is used as it is, whoever compiled it
+
+                    class Foreign(jsonpath.JSONPathEnvironment):
+                        root_token = "\u20ac"
+
+                    fenv = Foreign(unicode_escape=False) if not any("\\" in r for r in rels) else Foreign()
+                    args = [fenv.compile("\u20ac" + r[1:] if r.startswith("$") else r) for r in rels]
+                else:
+                    args = [jsonpath.compile(r) for r in rels] if compiled else rels
                 qobj = jsonpath.query(mq, doc)
                 lazy = qobj.select(*args, projection=style)
                 # a second selection asked of the same query before the first is read changes nothing about the first
